@@ -244,6 +244,7 @@ func cliC15(c *cliEnv, r *rand.Rand, tw *TraceWriter, label string, maxT int) {
 			[]string{"repopulate", "-g", gfile}, nil)
 	case 3: // collapse single on a tree with chains of single-child nodes
 		gp.PSingle = 0.3
+		gp.SupMode = 0 // (a support that ends up on a tip branch cannot be written in Newick: not observable through files)
 		s := genSTree(r, &gp)
 		c.editEvent(tw, label, ProjOpt{}, s.text(), "RemoveSingleNodes", map[string]interface{}{}, []string{"collapse", "single"}, nil)
 	default: // subtree -n <inner node name>
